@@ -109,6 +109,25 @@ def cases(seed, tier):
             mfail = rng.choice(pg.motors)
             c["devices"][mfail].setdefault("faults", {})[f"stop#{rng.choice([0, 0, 1])}+"] = {"kind": "raise", "exc": "RuntimeError"}
         yield c
+    # three requests on top of each other: one suspender trips, releases and trips again a moment later, the other
+    # one trips at about the same time - all while the first '_start_suspender' is still being carried out (a device
+    # whose stop() / pause() takes a while).  The plan is replayed once, after the last of them has released
+    if nsus == 2:
+        for j in range(2 if tier == "quick" else 5):
+            c = copy.deepcopy(case)
+            c["variant"] = f"three-overlapping-requests-{j}"
+            c["sim"] = {"handle_cost": 1e-4}
+            c["suspenders"]["s0"]["kwargs"]["sleep"] = 0.5
+            c["suspenders"]["s1"]["kwargs"]["sleep"] = 2.0
+            for dname, dspec in c["devices"].items():
+                if dspec["kind"] in ("motor", "pmotor"):
+                    dspec.setdefault("async", {})["stop"] = 0.05
+            st = rng.randrange(5, max(6, n))
+            c["script"][ci]["inject"] = [
+                {"id": "t1", "at": {"step": st}, "do": "trip", "args": {"signal": SIGS[1], "value": 1, "release_value": 0, "after": 0.0, "then": [[0.05, 1], [1.0, 0]]}},
+                {"id": "t0", "at": {"step": st + rng.randrange(12, 22)}, "do": "trip", "args": {"signal": SIGS[0], "value": 1, "release_value": 0, "after": 0.3}},
+            ]
+            yield c
 
 
 def check(res):
